@@ -78,12 +78,14 @@ func (s *grpcServer) GetActionResult(ctx context.Context,
 			s.accessLogger.Printf("%s %s %s", logPrefix, req.ActionDigest.Hash, err)
 			return nil, status.Error(gRPCErrCode(err, codes.Unknown), err.Error())
 		}
+		if rdr != nil {
+			defer func() { _ = rdr.Close() }()
+		}
 		if rdr == nil || sizeBytes <= 0 {
 			s.accessLogger.Printf("%s %s %s", logPrefix, req.ActionDigest.Hash, "NOT FOUND")
 			return nil, status.Error(codes.NotFound,
 				fmt.Sprintf("%s not found in AC", req.ActionDigest.Hash))
 		}
-		defer func() { _ = rdr.Close() }()
 
 		acdata, err := io.ReadAll(rdr)
 		if err != nil {
